@@ -362,6 +362,88 @@ def gen_global_case(rng):
     return "gfilter %d %s %s %s" % (rng.randrange(2), D, " ".join(fs), " ".join(fmt_rats(v) for v in type1(1)))
 
 
+def assemble_global(maps, mat_strs):
+    """undecomposed operator A = sum_r P_r^T A_r P_r from the per-patch CSR strings of gen_mats"""
+    A = {}
+    for m, ms in zip(maps, mat_strs):
+        t = ms.split()
+        pos = 1
+        for i in range(int(t[0])):
+            k = int(t[pos]); pos += 1
+            for _ in range(k):
+                col, a = int(t[pos]), vlib.parse_frac(t[pos + 1]); pos += 2
+                key = (m[i], m[col])
+                A[key] = A.get(key, Fraction(0)) + a
+    return A
+
+
+def serial_rich(A, G, B, X, jac, omega, k):
+    X = list(X)
+    diag = [A.get((g, g), Fraction(0)) for g in range(G)]
+    for _ in range(k):
+        AX = [Fraction(0)] * G
+        for (gi, gj), a in A.items():
+            AX[gi] += a * X[gj]
+        D = [B[g] - AX[g] for g in range(G)]
+        if jac:
+            if any(diag[g] == 0 for g in range(G)):
+                return None
+            D = [D[g] / diag[g] for g in range(G)]
+        X = [X[g] + omega * D[g] for g in range(G)]
+    return X
+
+
+def serial_cg(A, G, B, X, k):
+    def mv(V):
+        R = [Fraction(0)] * G
+        for (gi, gj), a in A.items():
+            R[gi] += a * V[gj]
+        return R
+    X = list(X)
+    AX = mv(X)
+    R = [B[g] - AX[g] for g in range(G)]
+    Pv = list(R)
+    rr = sum(t * t for t in R)
+    for _ in range(k):
+        Qv = mv(Pv)
+        pq = sum(a * b for a, b in zip(Pv, Qv))
+        if pq == 0 or rr == 0:
+            return None
+        al = rr / pq
+        X = [x + al * p for x, p in zip(X, Pv)]
+        R = [r - al * q for r, q in zip(R, Qv)]
+        rr2 = sum(t * t for t in R)
+        Pv = [r + (rr2 / rr) * p for r, p in zip(R, Pv)]
+        rr = rr2
+    return X, rr
+
+
+def gen_solve_case(rng):
+    """distributed (Jacobi-)Richardson / CG iterations; every global DOF is covered by construction of gen_decomp"""
+    for _ in range(50):
+        G, maps, nbrs = gen_decomp(rng, P=rng.choice([1, 2, 3, 3, 4, 5]))
+        if not all(len(m) > 0 for m in maps) or G > 14:
+            continue
+        mats = gen_mats(rng, maps)
+        A = assemble_global(maps, mats)
+        B = [rand_rat(rng, small=True) for _ in range(G)]
+        X = [rand_rat(rng, small=True) for _ in range(G)]
+        D = fmt_decomp(G, maps, nbrs)
+        ords = " ".join(fmt_list(o) for o in gen_orders(rng, nbrs))
+        bs = " ".join(fmt_rats([B[g] for g in m]) for m in maps)
+        xs = " ".join(fmt_rats([X[g] for g in m]) for m in maps)
+        if rng.random() < 0.6:
+            jac, k, omega = rng.randrange(2), rng.choice([0, 1, 2, 3]), rng.choice([Fraction(1), Fraction(1, 2), Fraction(-3, 4), Fraction(2, 3)])
+            if serial_rich(A, G, B, X, jac, omega, k) is None:
+                continue
+            return "rich %d %d %s %s %s %s %s %s" % (jac, k, vlib.frac_str(omega), D, ords, " ".join(mats), bs, xs)
+        k = rng.choice([0, 1, 2])
+        if serial_cg(A, G, B, X, k + 1) is None:      # no zero denominators, also not in the next step
+            continue
+        return "cg %d %s %s %s %s %s" % (k, D, ords, " ".join(mats), bs, xs)
+    return "gred 1 1/1"
+
+
 def gen_cases(rng, count):
     cases = []
     for _ in range(count):
@@ -371,6 +453,9 @@ def gen_cases(rng, count):
             continue
         if kk < 0.5:
             cases.append(gen_global_case(rng))
+            continue
+        if kk < 0.56:
+            cases.append(gen_solve_case(rng))
             continue
         k = rng.random()
         bs = rng.choice([1, 1, 1, 2, 3])
@@ -478,6 +563,14 @@ CORPUS = [
     "casync t3 3 3 3 4 6 2 2 0 2 0 3 2 2 4 3 2 1 0 1 2 3 0 3 5 3 0 1 2 1 1 1 1 2 2 2 1 0 0 0 1 2 0 1 0 0 2 0 2 0 2 0 0 2 3 0 1 2 0 0 2 0 2 0 2 0 0 1 3 2 1 0 0 0 4 0/1 0/1 -2/1 2/1 2 -1/1 0/1 6 -7/1 8/1 -5/2 -1/1 6/1 -26/3 6 0/1 0/1 33/5 -4/1 -2/1 2/1 1 -3/4 9 4/1 -7/1 7/1 -5/4 36/1 21/1 0/1 5/1 6/1 6 -2/1 2/1 33/5 -4/1 0/1 0/1 1 -18/7 3 34/1 -4/1 0/1 4 5/1 37/5 39/1 18/1 2 -15/4 7/4 6 -1/2 0/1 -7/1 -25/4 0/1 9/1 6 5/1 37/5 6/1 31/8 39/1 18/1 1 0/1 9 -19/5 0/1 31/5 36/7 0/1 -15/4 2/1 6/1 6/1 6 39/1 18/1 6/1 31/8 5/1 37/5 1 1/1 3 -19/4 4/1 9/1",
     "casync nest 3 4 5 2 1 6 2 3 4 1 0 1 0 5 5 1 3 0 4 2 0 3 0 1 0 3 3 2 0 2 2 1 1 1 1 0 2 3 4 2 2 0 0 1 0 2 4 2 1 1 0 0 1 0 2 2 3 2 0 1 1 0 1 0 2 0 2 2 0 0 1 0 1 0 2 1 0 0 1 0 1 0 0 0 0 1 0 2 1 0 4 0/1 -11/4 -9/1 7/1 4 19/4 0/1 -4/1 -7/1 1 6/1 3 10/1 5/1 -9/2 5 2/1 19/4 -7/1 -1/1 -4/1 4 -10/7 -3/2 0/1 -11/4 4 0/1 8/1 19/4 0/1 0 3 10/1 5/1 -9/2 3 -7/1 -21/1 -1/1 4 -8/1 9/1 15/1 8/1 4 -3/1 0/1 -5/1 6/1 1 4/1 3 10/1 5/1 -9/2 2 -7/1 -4/1 4 16/1 11/2 -30/1 31/5 4 8/1 0/1 -1/4 5/1 1 -1/1 3 -13/2 -5/1 -9/1 5 11/3 0/1 -9/7 6/1 -39/8 4 6/1 -17/1 16/1 11/2 4 -7/1 4/1 8/1 0/1 0 3 -13/2 -5/1 -9/1 3 -9/7 -4/1 6/1 4 17/2 4/1 0/1 3/1 4 2/1 5/1 -1/1 1/1 1 5/1 3 -13/2 -5/1 -9/1 2 -9/7 -39/8",
     "casync p3 3 1 2 1 0 0 1 1 0 0 0 1 -9/2 1 4/1 1 -8/1 0 0 0 1 -3/1 1 8/1 1 -5/7 1 -3/1 1 9/1 1 9/1 0 0 0 1 1/1 1 -24/1 1 -17/3",
+    # finding F1 (judged on every run): asynchronous ticket on a gate without neighbours
+    "ticket 0 3 1/1 2/1 3/1",
+    "ticket 1 3 1/1 2/1 3/1",
+    "ticket 2 3 1/1 2/1 3/1",
+    # discretise-and-solve: distributed Richardson / Jacobi-Richardson / CG iterates equal the one-process iterates
+    "rich 0 3 1/1 3 4 2 0 1 2 0 2 2 1 0 1 1 3 3 1 1 2 2 0 1 1 1 0 2 0 1 0 2 1 0 3 3 1 0 0 2 1 0 1 1 1 2 0 1 0 2 1 0 3 2 1 0 2 1 0 3 2 1 0 2 0 1 2 1 0 0/1 2 0 3/1 1 9/1 2 1 1 0/1 1 1 1/1 2 2 0 -2/1 1 7/1 1 1 -2/1 1 1 0 -7/1 2 2/1 1/1 2 2/1 4/1 2 1/1 2/1 1 1/1 2 -2/1 -5/1 2 -2/1 -4/1 2 -5/1 -2/1 1 -5/1",
+    "rich 1 3 -3/4 2 3 2 0 1 1 1 2 0 1 2 2 2 0 1 1 1 1 2 0 1 0 2 1 0 2 1 1 1 0 2 0 1 2 0 1 2 1 0 2 1 0 2 1 1 -6/1 2 0 0/1 1 -1/1 1 1 0 -8/1 2 2 0 -5/1 1 0/1 2 0 1/1 1 -1/1 2 0/1 2/1 1 2/1 2 0/1 2/1 2 -7/1 -4/1 1 -4/1 2 -7/1 -4/1",
+    "cg 2 5 3 1 0 3 4 3 0 3 0 1 2 2 2 1 0 1 1 0 2 2 1 2 0 1 2 2 0 1 0 1 1 0 2 1 0 2 1 0 2 1 0 1 1 0 0/1 3 3 0 -3/1 1 2/1 2 1/1 0 2 0 1/1 2 1/1 3 1 0 5/1 0 0 1 8/1 3 4/1 -1/1 8/1 3 8/1 -9/1 1/1 1 5/1 3 1/1 6/1 5/1 3 5/1 -6/1 -5/1",
 ]
 
 
@@ -867,10 +960,71 @@ def global_oracle(op, c, out):
     return None
 
 
+def solve_oracle(op, c, out):
+    if op == "rich":
+        jac, k, omega = c.nat(), c.nat(), vlib.parse_frac(c.tok())
+    else:
+        k = c.nat()
+    G, maps, nbrs = c.decomp()
+    P = len(maps)
+    if not decomp_wf(G, maps, nbrs):
+        return None
+    for _ in range(P):
+        c.lst()
+    mats = []
+    for r in range(P):
+        start = c.p
+        nrows = c.nat()
+        for i in range(nrows):
+            for _ in range(c.nat()):
+                c.nat(), c.tok()
+        mats.append(" ".join(c.t[start:c.p]))
+    A = assemble_global(maps, mats)
+    bs = [c.rats() for _ in range(P)]
+    xs = [c.rats() for _ in range(P)]
+    B, X = [Fraction(0)] * G, [Fraction(0)] * G
+    for r in range(P):
+        for i, g in enumerate(maps[r]):
+            B[g], X[g] = bs[r][i], xs[r][i]
+    if any(bs[r][i] != B[g] or xs[r][i] != X[g] for r in range(P) for i, g in enumerate(maps[r])):
+        return None
+    if is_abnormal(out):
+        return "%s on a consistent decomposition ended with %s" % (op, out)
+    sizes = [len(m) for m in maps]
+    if op == "rich":
+        ref = serial_rich(A, G, B, X, jac, omega, k)
+        if ref is None:
+            return None
+        res = read_vecs_out(out, "V", sizes)
+        rr = None
+    else:
+        ref = serial_cg(A, G, B, X, k)
+        if ref is None:
+            return None
+        ref, rr = ref
+        t = out.split()
+        res = read_vecs_out(" ".join(t[:-2]), "V", sizes)
+        if t[-2] != "R" or vlib.parse_frac(t[-1]) != rr:
+            return "cg: residual norm^2 after %d steps = %s, the one-process iteration gives %s" % (k, t[-1], rr)
+    for r in range(P):
+        for i, g in enumerate(maps[r]):
+            if res[r][i] != ref[g]:
+                return "%s: iterate %d of patch %d dof %d = %s, the one-process iteration gives %s" % (op, k, r, i, res[r][i], ref[g])
+    return None
+
+
 def oracle(case, out):
     c = Tk(case)
     op = c.tok()
     try:
+        if op in ("rich", "cg"):
+            return solve_oracle(op, c, out)
+        if op == "ticket":
+            kind, v = c.nat(), c.rats()
+            exp = [2 * t for t in v] if kind == 2 else v
+            if is_abnormal(out):
+                return "async ticket of a gate without neighbours: wait() ended with %s (expected the synchronous result)" % out
+            return None if read_vecs_out(out, "V", [len(v)])[0] == exp else "async ticket result %s, expected %s" % (out[:80], exp)
         if op in ("csync0", "csync1", "cdot", "casync", "cmuxjoin", "cmuxsplit"):
             return composite_oracle(op, c, out)
         if op in ("gred", "norm", "vmax", "vops", "valias", "async", "gapply2", "gdiag", "gfilter", "spljoin", "splsplit"):
@@ -987,7 +1141,14 @@ def _shape(case):
         return op, bs, None, len(mir), None
     if op == "gred":
         return op, 1, None, c.nat(), None
-    bs = 1 if op in ("gapply", "gapply2", "gdiag", "gfilter", "spljoin", "splsplit") else c.nat()
+    if op == "ticket":
+        c.nat()
+        return op, 1, None, c.nat(), None
+    if op == "rich":
+        c.nat(), c.nat(), c.tok()
+    if op == "cg":
+        c.nat()
+    bs = 1 if op in ("gapply", "gapply2", "gdiag", "gfilter", "spljoin", "splsplit", "rich", "cg") else c.nat()
     if op == "vops":
         c.nat(), c.tok(), c.tok()
     if op == "valias":
@@ -1041,7 +1202,15 @@ def canon(out):
 
 
 def signature(case, out, why):
-    return "%s:%s" % (case.split()[0], (why or "")[:40])
+    t = case.split()
+    if t[0] == "ticket" and out.startswith("ABORT"):
+        return "c13-edge:F1-async-ticket-without-neighbours"
+    return "%s:%s" % (t[0], (why or "")[:40])
+
+
+def model_filter(case):
+    # F1: the model states the specified behaviour, the code aborts (known finding, judged by the oracle only)
+    return not case.startswith("ticket ")
 
 
 # ---------------------------------------------------------------------------------------------
@@ -1194,7 +1363,7 @@ def make_mpi_oracle(results):
             return "ran on %d ranks" % n
         for k in sorted(o):
             a, b = o[k], ref[k]
-            if k in ("ndofs", "x_blk_ndofs", "x_tup3_ndofs"):
+            if k in ("ndofs", "x_blk_ndofs", "x_tup3_ndofs", "x_pow3_ndofs", "x_nest_ndofs", "x_alt_ndofs"):
                 if a != b:
                     return "%s: %s on %d ranks, %s on one" % (k, a, n, b)
             elif k.startswith("x_"):
@@ -1205,6 +1374,12 @@ def make_mpi_oracle(results):
                 fa, fb = float.fromhex(a), float.fromhex(b)
                 if not abs(fa - fb) <= TOL[k] * max(abs(fa), abs(fb)):
                     return "%s: %r on %d ranks, %r on one process (rel. tolerance %g)" % (k, fa, n, fb, TOL[k])
+            elif k.startswith("b_"):
+                # quantities with an a-priori floating point bound proved in Lean (C13.sync0_float_bound): error / bound <= 1
+                # (slack 1e-3 for the rounding in the evaluation of the bound itself)
+                if not float.fromhex(a) <= 1.001:
+                    return "%s = %r on %d ranks: the synchronised value of some shared DOF is further from the exact sum than " \
+                           "((1+u)^(k-1)-1) * sum|contributions|" % (k, float.fromhex(a), n)
             elif k.startswith("z_"):
                 # relative defects of identities that hold exactly in exact arithmetic (prol reproduces the interpolant of a
                 # multilinear function, rest is the adjoint of prol w.r.t. Gate::dot)
@@ -1226,7 +1401,7 @@ def make_mpi_oracle(results):
             pairs = (("x_async_dot", "x_x_w2"), ("x_async_gdot", "x_x_w2"), ("x_async_nrm2sqr", "x_x_x"), ("x_async_nrm2", "x_x_nrm"),
                      ("x_async_gdot_sqrt", "x_x_nrm"), ("x_async_maxabs", "x_x_max"), ("x_async_minabs", "x_vminabs"),
                      ("x_async_max", "x_vmax"), ("x_async_min", "x_vmin"), ("x_async_gmax", "x_gate_max"), ("x_async_gmin", "x_gate_min"),
-                     ("x_blk_async_dot", "x_blk_dot"), ("x_tup3_async_xw", "x_tup3_xw"), ("x_tup3_async_xx", "x_tup3_xx"),
+                     ("x_blk_async_dot", "x_blk_dot"), ("x_pow3_async_dot", "x_pow3_dot"), ("x_nest_async_dot", "x_nest_dot"), ("x_tup3_async_xw", "x_tup3_xw"), ("x_tup3_async_xx", "x_tup3_xx"),
                      ("t_async_sum", "t_gate_sum_freq"), ("t_async_gnorm2", "t_gate_norm2"), ("t_blk_async_nrm2", "t_blk_nrm2"))
             for ka, kb in pairs:
                 fa, fb = float.fromhex(o[ka]), float.fromhex(o[kb])
@@ -1288,7 +1463,7 @@ def main(argv):
     if (replay_case is None or not replay_case.startswith("mpi ")) and only in ("", "inproc"):
         cases = [replay_case] if replay_case else CORPUS + gen_cases(rng, 12000 if args.tier == "quick" else 80000)
         streams.append(vlib.Stream("inproc", cases, [binary], vlib.driver_cmd(PROP), oracle=oracle, nontrivial=nontrivial,
-                                   describe=describe, signature=signature, canon=canon))
+                                   describe=describe, signature=signature, canon=canon, model_filter=model_filter))
     if (replay_case is None or replay_case.startswith("mpi ")) and only in ("", "mpi"):
         mcases = [replay_case] if replay_case else mpi_cases(args.tier, args.seed, hook)
         allc = list(dict.fromkeys([mpi_ref_case(c) for c in mcases] + mcases))
